@@ -78,6 +78,25 @@ def run_roundtrip(unit, rng, ctx):
             if not (good and centre):
                 bad = int(np.argmax(np.any(back != vox, axis=1))) if back.shape == vox.shape else -1
                 ctx.violation(f'grid size {n}, axis {axis}: voxel {bad} -> frac {frac[bad].tolist() if bad >= 0 else None} -> voxel {back[bad].tolist() if bad >= 0 else back.shape} (centre formula ok={centre})', {'n': n, 'axis': axis})
+        # the alternate entry points of the same mapping, on a skewed cell and a grid that is n voxels along one axis:
+        # voxel -> Cartesian centre, PeriodicSite -> voxel, batches of 1..5 voxels
+        from pymatgen.core import PeriodicSite
+
+        m_sk = geom.matrix_from_parameters(4.0, 5.0, 6.0, 80.0, 95.0, 110.0)
+        lat_sk = Lattice(m_sk)
+        sh = [int(rng.integers(1, 5)), int(rng.integers(1, 5)), int(rng.integers(1, 5))]
+        sh[int(rng.integers(3))] = n
+        vol_sk = Volume(data=np.zeros(sh, dtype=np.int8), lattice=lat_sk)
+        for nb_ in (1, 2, 3, 4, 5):
+            V = np.stack([rng.integers(0, s_, size=nb_) for s_ in sh], axis=1)
+            fc = np.asarray(vol_sk.voxel_to_frac_coords(V))
+            cc = np.asarray(vol_sk.voxel_to_cart_coords(V))
+            wantf = (V + 0.5) / np.array(sh)
+            bk = np.asarray(vol_sk.frac_coords_to_voxel(fc))
+            ctx.check(fc.shape == wantf.shape and np.allclose(fc, wantf, rtol=0, atol=1e-15) and np.allclose(cc, wantf @ m_sk, rtol=1e-12, atol=1e-12) and np.array_equal(bk, V), f'grid {sh}: batch of {nb_} voxels {V.tolist()} -> fractional {np.round(fc, 4).tolist()} / Cartesian centres -> voxels {bk.tolist() if hasattr(bk, "tolist") else bk}', {'grid': sh, 'voxels': V})
+        fr = rng.uniform(0, 1, size=3)
+        sv = np.asarray(vol_sk.site_to_voxel(PeriodicSite('Li', fr, lat_sk)))
+        ctx.check(sv.tolist() == np.floor(fr * np.array(sh)).astype(int).tolist(), f'grid {sh}: site_to_voxel of a site at {fr.tolist()} gives {sv.tolist()}, floor(frac x grid) is {np.floor(fr * np.array(sh)).astype(int).tolist()}', {'grid': sh})
         # a single voxel index (not an array) must behave the same
         v1 = [int(rng.integers(n)), 0, 0]
         vol = Volume(data=np.zeros((n, 1, 1), dtype=np.int8), lattice=lat)
